@@ -22,4 +22,4 @@ package codec
 //@   loop 1 entry [starts-at-zero] i == 0
 //@   loop 1 invariant 0 <= i && (i == 0 || lim * (i - 1) < len(input))
 //@   loop 1 iteration-ensures [next-block-in-order] calls(cryptFn) == 1 && arg(cryptFn, 0).arr == input.arr && arg(cryptFn, 0).off == input.off + lim * at_head(i) && len(arg(cryptFn, 0)) == min(lim, len(input) - lim * at_head(i)) && ret(cryptFn, 1) == nil && i == at_head(i) + 1 && len(result) == at_head(len(result)) + len(ret(cryptFn, 0))
-//@   ensures [block-error-aborts] result1 != nil ==> result0 == nil && result1 == ret(cryptFn, 1)
+//@   ensures [block-error-aborts] result1 != nil ==> result0 == nil && result1 == ret(cryptFn, 1, last)
